@@ -1,6 +1,23 @@
+// Package c16lua is the check of property C16: "a Lua plugin cannot hang, crash or escape the controller".
+//
+// Monitors: (a) result shape, (b) bounded CPU time, (c1) environment walk + dynamic escape probes, (c2) syscall
+// log under strace, (d) value round trip. Every Lua script runs in a killable child process (child.go / parent.go).
 package c16lua
 
-import "os"
+import (
+	"encoding/json"
+	"fmt"
+	"os"
+	"reflect"
+	"strings"
+	"time"
+
+	"verif/harness/core"
+)
+
+const (
+	grammarPerCase = 25
+)
 
 func init() {
 	if os.Getenv(envChild) != "" {
@@ -10,5 +27,253 @@ func init() {
 	if f := os.Getenv("C16LUA_EXPLORE"); f != "" {
 		exploreMain(f)
 		os.Exit(0)
+	}
+	core.Register(&core.Check{
+		ID:    "C16",
+		Level: "exploration",
+		Rule: "cases: #0 environment walk of the script-visible globals (copied construction + probe through the real RunLuaScript) with dynamic escape probes against sentinel files; " +
+			"#1 the same probes, the fast hostile corpus and generated programs under strace, bracketed by marker syscalls; then one case per hostile-corpus unit " +
+			"(non-terminating scripts, pattern / gsub / load bombs as growing families, large-but-modest inputs, recursion, error() variants, wrong return types, bad arguments, environment tampering, cross-call isolation); " +
+			"then batches of 25 grammar-generated programs; then batches of 50 generated JSON-like values through identity scripts. Every script is executed exactly as ingress/custom executeLuaForCanary do " +
+			"(RunLuaScript, l.Get(-1), type test, luamanager.Encode, json.Unmarshal into the caller's type) in a child process, one script at a time, GOMAXPROCS=1, getrusage around the call. " +
+			"distinct = distinct (category, script name or generated-feature set, outcome) signature.",
+		Assumptions: []string{
+			"bounded time is judged on CPU time of the call (getrusage, single-P child so CPU <= wall): violation only above 5 s (claimed deadline 1 s); a script still running at 5.5 s CPU is killed and counted as over the bound; the wall watchdog (60 s without CPU progress) alone never produces a violation, only an inconclusive case",
+			"memory bombs and nesting bombs are outside the claim: corpus data stay below ~50 MB / a few thousand nesting levels; for generated programs (data size not known by construction) a call during which the process's peak RSS exceeds 1 GiB is not judged on time; a child that dies with 'out of memory' or exceeds 6 GiB RSS is excluded, not judged",
+			"an unrecoverable death of the process (Go fatal error) caused by a script of modest size is a violation ('never panics the process')",
+			"no escape: print/_printregs (stdout of the controller) and load/loadstring (compile strings only) are allowed; a reachable function outside the reviewed allow-list of base/math/string/table/json functions is reported because the claimed mechanism is a closed set of opened libraries; loadfile/dofile/require are judged by probes against sentinel files and by the syscall log",
+			"round trip: numbers compare numerically; {} == [] == null where the value is an empty table; JSON null inside lists/maps cannot be stored in a Lua table and is outside the property's quantifier (maps/lists/numbers/strings): dropped nulls are tolerated and counted, everything else must be preserved exactly",
+			"inputs are what runtime.DefaultUnstructuredConverter.ToUnstructured yields (int64/float64/string/bool/nil/slices/maps; valid UTF-8)",
+		},
+		NumCases: func(env *core.Env) int {
+			p := planFor(env)
+			return p.total
+		},
+		ChunkSize:        1,
+		Relevant:         "scripts_run",
+		DeathIsViolation: true,
+		RunCase:          runCase,
+	})
+}
+
+type plan struct {
+	nHostile, nGrammar, nRT int
+	total                   int
+}
+
+func planFor(env *core.Env) plan {
+	p := plan{nHostile: len(hostileUnits(env.Thorough()))}
+	if env.Thorough() {
+		p.nGrammar, p.nRT = 30000/grammarPerCase, 600
+	} else {
+		p.nGrammar, p.nRT = 1500/grammarPerCase, 40
+	}
+	p.total = 2 + p.nHostile + p.nGrammar + p.nRT
+	return p
+}
+
+func runCase(env *core.Env, idx int) *core.CaseResult {
+	res := &core.CaseResult{}
+	p := planFor(env)
+	if os.Getenv("C16LUA_TIMING") != "" { // development aid: which cases dominate the wall time
+		t0 := time.Now()
+		defer func() {
+			if d := time.Since(t0); d > 3*time.Second {
+				res.AddSet("slow_cases", fmt.Sprintf("%04d:%.1fs", idx, d.Seconds()))
+			}
+		}()
+	}
+	switch {
+	case idx == 0:
+		runEnvCase(res)
+	case idx == 1:
+		runStraceCase(env, res)
+	case idx < 2+p.nHostile:
+		runHostileCase(env, hostileUnits(env.Thorough())[idx-2], res)
+	case idx < 2+p.nHostile+p.nGrammar:
+		runGrammarCase(env, idx, res)
+	default:
+		runRoundTripCase(env, idx, res)
+	}
+	return res
+}
+
+func isOOM(stderr string) bool {
+	return strings.Contains(stderr, "out of memory") || strings.Contains(stderr, "cannot allocate memory")
+}
+
+// judgeCommon applies monitors (a) and (b) to one executed script.
+// modest: the script's own data are small by construction (hostile corpus), so its time is judged whatever the
+// process's RSS did (garbage of the implementation is not the script's data); otherwise (generated programs) a call
+// that drives the peak RSS above 1 GiB is taken for a memory bomb and not judged on time.
+func judgeCommon(res *core.CaseResult, it item, r itemResult, timeFP string, modest bool) {
+	detail := func() map[string]interface{} {
+		return map[string]interface{}{"category": it.Cat, "name": it.Name, "script": capStr(it.Script, 4000), "flavour": it.Flavour, "kind": r.Kind, "stage": r.Stage,
+			"error": capStr(r.Err, 600), "cpu_ms": r.CPUms, "run_cpu_ms": r.RunCPUms, "wall_ms": r.WallMs, "rss_kb": r.RSS1KB, "stderr": r.Stderr}
+	}
+	res.Count("scripts_run", 1)
+	switch r.Kind {
+	case "table":
+		res.Count("results_table", 1)
+	case "error":
+		res.Count("results_error", 1)
+		res.Count("results_error_"+r.Stage, 1)
+	case "panic":
+		res.Count("panics", 1)
+		d := detail()
+		d["stack"] = r.Stack
+		res.Violate("c16:panic:"+r.Site+":"+core.NormPanic(r.Panic), "a Go panic escaped RunLuaScript/Encode: "+r.Panic, d)
+	case "death":
+		if isOOM(r.Stderr) {
+			res.Count("memory_bombs_excluded", 1)
+			return
+		}
+		res.Count("process_deaths", 1)
+		res.Violate("c16:death:"+deathClass(r), "the script killed the whole process: "+firstFatal(r.Stderr)+" "+r.ExitErr, detail())
+		return
+	case "killed-rss":
+		res.Count("memory_bombs_excluded", 1)
+		return
+	case "killed-wall":
+		if r.CPUms <= cpuBoundMs {
+			res.Count("wall_watchdog_inconclusive", 1)
+			res.Inconclusive = fmt.Sprintf("%s/%s did not return within %v wall but consumed only %d ms CPU", it.Cat, it.Name, wallKill, r.CPUms)
+			return
+		}
+	case "killed-cpu":
+	case "nochild":
+		res.Count("child_trouble", 1)
+		res.Inconclusive = "child process trouble: " + capStr(r.Err+" "+r.Stderr, 400)
+		return
+	}
+	if r.CPUms > cpuBoundMs && r.RSS1KB > memBombKB && !modest {
+		// the call drove the process above 1 GiB: a memory bomb, outside the claim (a controller with a usual memory
+		// limit would be OOM-killed, which the sandbox does not promise to prevent) - time not judged
+		res.Count("memory_bombs_excluded", 1)
+		res.AddSet("memory_bombs", it.Cat+"/"+it.Name)
+		return
+	}
+	if r.CPUms > cpuBoundMs {
+		res.Count("cpu_over_bound", 1)
+		fp := timeFP
+		if fp == "" {
+			fp = "c16:time:" + it.Cat
+		}
+		how := fmt.Sprintf("returned after %d ms CPU", r.CPUms)
+		if strings.HasPrefix(r.Kind, "killed") {
+			how = fmt.Sprintf("had not returned after %d ms CPU (killed)", r.CPUms)
+		}
+		res.Violate(fp, fmt.Sprintf("the call %s; the deadline in RunLuaScript is 1 s, bound used 5 s", how), detail())
+	}
+}
+
+func runHostileCase(env *core.Env, u unit, res *core.CaseResult) {
+	if u.Cat == "returns-custom" {
+		in := customInputJSON(map[string]interface{}{"hosts": []interface{}{"a.example.com"}, "http": []interface{}{map[string]interface{}{"route": []interface{}{map[string]interface{}{"weight": int64(100)}}}}},
+			map[string]string{"app": "demo"}, map[string]string{"a": "b"})
+		for i := range u.Items {
+			u.Items[i].Input = in
+		}
+	}
+	items := u.Items
+	var results []itemResult
+	if u.StopAtOver {
+		for i := range items {
+			out := runItems(items[i:i+1], runOpt{})
+			results = append(results, out.Results[0])
+			if out.Results[0].CPUms > cpuBoundMs || out.Results[0].Kind == "death" {
+				break
+			}
+		}
+	} else {
+		results = runItems(items, runOpt{}).Results
+	}
+	for i, r := range results {
+		judgeCommon(res, items[i], r, u.TimeFP, true)
+		out := r.Kind
+		if r.Kind == "error" {
+			out += "@" + r.Stage
+		}
+		if r.CPUms > cpuBoundMs {
+			out += ":over-bound"
+		}
+		name := items[i].Name
+		if u.StopAtOver {
+			name = fmt.Sprintf("%s#%d", name, i)
+		}
+		res.AddSig("hostile:" + u.Cat + ":" + name + ":" + out)
+		res.AddSet("hostile_categories", u.Cat)
+	}
+	if u.Cat == "returns" {
+		for i, r := range results {
+			exp, ok := returnExpect[items[i].Name]
+			if !ok {
+				continue
+			}
+			res.Count("encoder_refusals_checked", 1)
+			if r.JSON == "" { // Encode refused (or the script failed earlier): fine
+				continue
+			}
+			same := false
+			var got interface{}
+			if json.Unmarshal([]byte(r.JSON), &got) == nil {
+				for _, okJSON := range exp.OK {
+					var want interface{}
+					if json.Unmarshal([]byte(okJSON), &want) == nil && reflect.DeepEqual(got, want) {
+						same = true
+					}
+				}
+			}
+			if !same {
+				res.Violate("c16:encode:"+exp.Class, "Encode turned a value JSON cannot carry into something else instead of refusing it",
+					map[string]interface{}{"script": items[i].Script, "encoded": capStr(r.JSON, 600), "acceptable": exp.OK})
+			}
+		}
+	}
+	if u.Isolation && len(results) == 2 {
+		res.Count("isolation_checks", 1)
+		want := `{"add":"nil","enc":"function","huge":"false","ins":"function","leak":"nil","rep":"function","up":"A","w":"20"}`
+		if results[0].Kind != "table" || results[1].Kind != "table" || results[1].JSON != want {
+			res.Violate("c16:isolation:state-shared-between-calls", "what one script did to its globals / library tables / input is visible to the next call",
+				map[string]interface{}{"poison": items[0].Script, "check": items[1].Script, "first": results[0], "second": results[1], "want": want})
+		}
+	}
+	if len(results) > 0 {
+		res.Sample = map[string]interface{}{"kind": "hostile", "category": u.Cat, "name": items[0].Name, "script": capStr(items[0].Script, 300), "outcome": results[0].Kind, "stage": results[0].Stage, "cpu_ms": results[0].CPUms}
+	}
+}
+
+func runGrammarCase(env *core.Env, idx int, res *core.CaseResult) {
+	rng := env.RNG(idx)
+	var items []item
+	var progs []genProg
+	in := ingressInputJSON()
+	for i := 0; i < grammarPerCase; i++ {
+		g := genProgram(rng, env.Thorough())
+		progs = append(progs, g)
+		fl := "ingress"
+		if i%3 == 2 {
+			fl = "raw"
+		}
+		items = append(items, item{Cat: "generated", Name: "program", Script: g.Src, Input: in, Flavour: fl})
+	}
+	out := runItems(items, runOpt{})
+	for i, r := range out.Results {
+		judgeCommon(res, items[i], r, "c16:time:generated-program", false)
+		res.Count("generated_programs", 1)
+		o := r.Kind
+		if r.Kind == "error" {
+			o += "@" + r.Stage
+			if strings.Contains(r.Err, "context deadline exceeded") {
+				o += ":deadline"
+				res.Count("generated_hit_deadline", 1)
+			} else if strings.Contains(r.Err, "stack overflow") {
+				o += ":stackoverflow"
+			}
+		}
+		res.AddSig("gen:" + featSig(progs[i].Feat) + ":" + o)
+	}
+	if len(items) > 0 {
+		res.Sample = map[string]interface{}{"kind": "generated", "script": items[0].Script, "outcome": out.Results[0].Kind, "stage": out.Results[0].Stage, "error": capStr(out.Results[0].Err, 200)}
 	}
 }
